@@ -114,6 +114,21 @@ def call(case, grid, ds, nm, lazy):
                                         dask="allowed" if core_chunked else "parallelized",
                                         map_overlap=bool(case["map_overlap"]) and lazy and core_chunked,
                                         **{k: v for k, v in kw.items() if k != "to"})
+    if kind == "ufunc2":
+        # a user function over TWO core dimensions; the widths are keyed by the signature's dummy names, listed
+        # in either order or for one axis only
+        ws = {d: tuple(w) for d, w in case["bw2"]}
+        tx, ty = sum(ws.get("X", (0, 0))), sum(ws.get("Y", (0, 0)))
+
+        def stencil2(x):
+            nx, ny = x.shape[-2] - tx, x.shape[-1] - ty
+            return x[..., tx:, ty:] - x[..., :nx, :ny]
+
+        core_chunked = any(len(chunks[nm(d)]) > 1 for d in case["core_dims"])
+        return grid.apply_as_grid_ufunc(stencil2, da, axis=[(axis[0], axis[1])], signature="(X:center,Y:center)->(X:center,Y:center)",
+                                        boundary_width=ws, dask="allowed" if core_chunked else "parallelized",
+                                        map_overlap=lazy and core_chunked,
+                                        **{k: v for k, v in kw.items() if k != "to"})
     if kind == "vecplain":
         # a vector component on a grid without face connections, lazily
         return getattr(grid, case["op"])({axis[0]: da}, axis[0], other_component={nm(a["other_axis"]): da}, **kw)
@@ -224,6 +239,30 @@ def gen_cases(rng, thorough):
             # map_overlap is meant for data chunked along the core dimension; without it only other dims are chunked
             cases += with_chunks(rng, b, "ufunc", [spec], map_overlap=core_chunked, bw=rng.choice([[1, 1], [1, 1], [2, 0], [0, 2]]),
                                  decorated=rng.random() < 0.4)
+    # user ufunc over two core dimensions
+    for _ in range(nbase // 2):
+        n1, n2 = rng.randint(2, 4), rng.randint(2, 4)
+        extra = [["d9", rng.randint(1, 2)]] if rng.random() < 0.5 else []
+        g = {"axes": [{"name": "a1", "n": n1, "pos": [["center", "d1"], ["left", "d2"]]},
+                      {"name": "a2", "n": n2, "pos": [["center", "d3"], ["left", "d4"]]}], "extra": extra,
+             "ctor": gen.rand_ctor(rng, ["a1", "a2"])}
+        ds_ = [["d1", n1], ["d3", n2]] + [list(e) for e in extra]
+        rng.shuffle(ds_)
+        axis = rng.choice([["a1", "a2"], ["a2", "a1"]])            # which real axis plays X and which Y
+        b = {"grid": g, "args": {"data": gen.rand_data(rng, ds_), "axis": axis, "to": NONE,
+                                 "boundary": gen.rand_tagged(rng, ["a1", "a2"], gen.RULES, partial=True),
+                                 "fill_value": gen.rand_tagged(rng, ["a1", "a2"], [-3, 0, 2], partial=True)},
+             "core_dims": ["d1", "d3"]}
+        wpool = [[0, 0], [1, 0], [0, 1], [1, 1]]
+        for _ in range(3):
+            bw2 = [["X", rng.choice(wpool)], ["Y", rng.choice(wpool)]]
+            r_ = rng.random()
+            if r_ < 0.35:
+                bw2.reverse()
+            elif r_ < 0.5:
+                bw2 = [rng.choice(bw2)]
+            spec = [[d, rng.choice(compositions(L))] for d, L in ds_]
+            cases += with_chunks(rng, b, "ufunc2", [spec], bw2=bw2)
     # face-connected grids chunked over the face and extra dims (never the two spatial dims)
     for _ in range(nbase):
         vec = rng.random() < 0.4
@@ -290,7 +329,7 @@ def run(ctx):
             ctx.reject(classify(r, bad[r["id"]]), f"spec rejects record: {bad[r['id']]}", r)
     ctx.evaluations = len(recs)
     ctx.extra["refusals_observed"] = refused
-    ctx.extra["records_by_kind"] = {k: sum(1 for r in recs if r["kind"] == k) for k in ("op", "weighted", "metric", "ufunc", "face", "vecplain")}
+    ctx.extra["records_by_kind"] = {k: sum(1 for r in recs if r["kind"] == k) for k in ("op", "weighted", "metric", "ufunc", "ufunc2", "face", "vecplain")}
 
     def corrupt(r):
         if r["out"]["k"] != "array" or r["eager"]["k"] != "array":
